@@ -383,14 +383,14 @@ def run(ctx):
     ctx.extra["cover_max_acquisitions"] = maxacq
     ctx.extra["cover_observed_states"] = nstates
     ctx.extra["cover_state_call_pairs"] = ncov
-    nrand = ctx.pick(2000, 60000)
+    nrand = ctx.pick(2000, 40000)
     for i in range(nrand):
         cfg = ctx.rng.choice(CONFIGS + [dict(limit=5, lock=False)])
         traces.append(random_history(ctx.rng, cfg, ctx.rng.randint(8, 40)))
     # spec -> code: behaviours generated by TLC from the specification are stepped through the real
     # object; the real observations are validated by TLC below, and compared with the prediction here.
-    behs = ctx.simulate("LockSemSim", "LockSemSim.cfg", num=ctx.pick(30, 1500), depth=17)
-    behs = behs[:ctx.pick(600, 30000)]
+    behs = ctx.simulate("LockSemSim", "LockSemSim.cfg", num=ctx.pick(30, 1000), depth=17)
+    behs = behs[:ctx.pick(600, 20000)]
     drift = 0
     for b in behs:
         ops = []
